@@ -236,6 +236,19 @@ impl ProgressDrawTarget {
         }
     }
 
+    /// The number of lines the next draw erases
+    pub(crate) fn last_line_count(&self) -> VisualLines {
+        match &self.kind {
+            TargetKind::Term {
+                last_line_count, ..
+            } => *last_line_count,
+            TargetKind::TermLike {
+                last_line_count, ..
+            } => *last_line_count,
+            _ => VisualLines::default(),
+        }
+    }
+
     /// Returns the number of lines the adjustment actually covers
     pub(crate) fn adjust_last_line_count(&mut self, adjust: LineAdjust) -> VisualLines {
         self.kind.adjust_last_line_count(adjust)
